@@ -34,7 +34,10 @@ func TestC13(t *testing.T) {
 	s2h := corpusS2([]string{"n1"}, "1", 2, &w.Alpha{PT: true, Templates: []string{"A", "B"}})
 	s2h.name = "S2-edits-object-carries-hash-annotation"
 	s2h.eds = append(s2h.eds, w.WithAnnotation(v1.MD5ExtendedDaemonSetAnnotationKey, w.TemplateHash(&ta)))
-	scs := []scOpt{s2, s3, s2f, s2h}
+	// edits that only touch the template's own metadata (a pod label): the PodTemplate must follow them too
+	s2l := scOpt{name: "S2-edits-of-template-metadata", nodes: []string{"n1"}, eds: []w.EDSOpt{w.WithRolling("1", "", 0, 0)}, tpls: []string{"A", "A+label:rev=2"},
+		alpha: &w.Alpha{PT: true, Templates: []string{"A", "A+label:rev=2"}}, budget: 2}
+	scs := []scOpt{s2, s3, s2f, s2h, s2l}
 	runWorld(t, run, scs, []func(*w.MonCtx){w.MonC13}, 0)
 	requireAntecedents(run, "C13/create", "C13/delete", "C13/podtemplate")
 	c13Lattice(t, run)
